@@ -1,4 +1,5 @@
 import SqlObjVerif.Lemmas.Codec
+import SqlObjVerif.Lemmas.CodecXChain
 /-!
 # C01 — stored values read back unchanged; a query for the value finds the row; any other accepted
 value is normalised or rejected, never stored unreadable
@@ -238,3 +239,180 @@ theorem C01_glue_Float_Decimal (t : Str) :
   simp [toDb, toPy, floatV, lit]
 
 end SqlObjVerif.Codec
+
+/-!
+# C01 — TRANSLATED validators (`Extracted/PyCodec.lean`, regenerated from the AST of /repo's col.py on every run)
+
+`PyCodec.runV cfg prog v` executes the translated Python source of a validator method on a value of the universe
+(`Model/PyCodec.lean`: the embedding and its reference semantics; `Model/CodecX.lean`: the assumed interface).  Each
+theorem says: for ALL values, the translated source never gets stuck and computes the hand model's function — so every
+theorem above about `toDb` / `toPy` is a theorem about the source text of /repo.
+-/
+namespace SqlObjVerif.PyCodec
+open SqlObjVerif.Codec (Str PyVal ColT DT)
+open Extracted
+
+theorem C01_translated_IntValidator_to_python_eq_model (v : PyVal) : runV cfgInt intToPython v = some (Codec.intV v) :=
+  intToPython_eq v
+
+/-- `from_python = to_python` in the class body (checked by the extractor) -/
+theorem C01_translated_IntValidator_from_python_eq_model (v : PyVal) : runV cfgInt intFromPython v = some (Codec.intV v) :=
+  intToPython_eq v
+
+theorem C01_translated_BoolValidator_to_python_eq_model (v : PyVal) : runV Cfg.base boolToPython v = some (Codec.boolV v) :=
+  boolToPython_eq v
+
+theorem C01_translated_BoolValidator_from_python_eq_model (v : PyVal) :
+    runV Cfg.base boolFromPython v = some (Codec.boolV v) :=
+  boolToPython_eq v
+
+/-- `dec`: the `dataType=Decimal` DecimalStringCol passes -/
+theorem C01_translated_StringValidator_to_python_eq_model (dec : Bool) (v : PyVal) :
+    runV (cfgString dec) stringToPython v = some (Codec.stringV dec v) ∧
+    runV (cfgString dec) stringFromPython v = some (Codec.stringV dec v) :=
+  ⟨stringToPython_eq dec v, stringToPython_eq dec v⟩
+
+theorem C01_translated_UnicodeStringValidator_to_python_eq_model (v : PyVal) :
+    runV Cfg.base unicodeToPython v = some (Codec.unicodeV v) :=
+  unicodeToPython_eq v
+
+theorem C01_translated_UnicodeStringValidator_from_python_eq_model (v : PyVal) :
+    runV Cfg.base unicodeFromPython v = some (Codec.unicodeV v) :=
+  unicodeFromPython_eq v
+
+theorem C01_translated_EnumValidator_to_python_eq_model (vals : List Str) (v : PyVal) :
+    runV (cfgEnum vals) enumToPython v = some (Codec.enumV vals v) ∧
+    runV (cfgEnum vals) enumFromPython v = some (Codec.enumV vals v) :=
+  ⟨enumToPython_eq vals v, enumToPython_eq vals v⟩
+
+/-- referenced class with int ids; `first`: the call that looks the class up (`self.fkIDType is None`) or a later one -/
+theorem C01_translated_ForeignKeyValidator_from_python_eq_model (first : Bool) (v : PyVal) :
+    runV (cfgFkInt first) fkFromPython v = some (Codec.fkFromPython v) :=
+  fkFromPython_int_eq first v
+
+/-- referenced class with `idType = str` -/
+theorem C01_translated_ForeignKeyValidator_from_python_strId_eq_model (first : Bool) (v : PyVal) :
+    runV (cfgFkStr first) fkFromPython v = some (Codec.fkStrFromPython v) :=
+  fkFromPython_str_eq first v
+
+/-- the `.%f` fix-up of the source (`'.' in value`, `split`, pad / truncate to 6 digits, `join`) is the hand model's
+    `fixMicro`, for every text and every format whose text contains `.%f` -/
+theorem C01_translated_DateTimeValidator_fixup_eq_model (fs : Str) (F : List Codec.SPiece) (hp : parseFmt fs = some F)
+    (hf : 0 ≤ strFind [46, 37, 102] fs) (hh : Codec.hasDotF F = true) (s : Str) :
+    runV (cfgDt fs) dtToPython (.str s) = some (Codec.dtToPython F (.str s)) :=
+  dt_str_dot fs F hp _ rfl hf hh s
+
+/-- with the three formats of col.py (their text is extracted; its parse is the hand model's format) -/
+theorem C01_translated_DateTimeValidator_to_python_eq_model (v : PyVal) :
+    runV (cfgDt fmtDateTimeStr) dtToPython v = some (Codec.dtToPython Codec.Extracted.fmtDateTime v) ∧
+    runV (cfgDt fmtDateStr) dtToPython v = some (Codec.dtToPython Codec.Extracted.fmtDate v) ∧
+    runV (cfgDt fmtTimeStr) dtToPython v = some (Codec.dtToPython Codec.Extracted.fmtTime v) :=
+  ⟨dtToPython_dt_eq v, dtToPython_d_eq v, dtToPython_t_eq v⟩
+
+theorem C01_translated_DateTimeValidator_from_python_eq_model (fs : Str) (v : PyVal) :
+    runV (cfgDt fs) dtFromPython v = some (Codec.dtFromPython v) :=
+  dtFromPython_eq fs v
+
+/-- `super().to_python` runs the translated DateTimeValidator.to_python -/
+theorem C01_translated_DateValidator_to_python_eq_model (v : PyVal) :
+    runV (cfgDtSub fmtDateStr) dateToPython v = some (Codec.dateToPython v) ∧
+    runV (cfgDtSub fmtDateStr) dateFromPython v = some (Codec.dateToPython v) :=
+  ⟨dateToPython_eq v, dateToPython_eq v⟩
+
+theorem C01_translated_TimeValidator_to_python_eq_model (v : PyVal) :
+    runV (cfgDtSub fmtTimeStr) timeToPython v = some (Codec.timeToPython v) ∧
+    runV (cfgDtSub fmtTimeStr) timeFromPython v = some (Codec.timeToPython v) :=
+  ⟨timeToPython_eq v, timeToPython_eq v⟩
+
+theorem C01_translated_DecimalValidator_to_python_eq_model (v : PyVal) :
+    runV Cfg.base decToPython v = some (Codec.toPy .decimal v) :=
+  decToPython_eq v
+
+theorem C01_translated_DecimalValidator_from_python_eq_model (v : PyVal) :
+    runV Cfg.base decFromPython v = some (Codec.toDb .decimal v) :=
+  decFromPython_eq v
+
+theorem C01_translated_BinaryValidator_to_python_eq_model (v : PyVal) :
+    runV Cfg.base binToPython v = some (Codec.binToPython v) :=
+  binToPython_eq v
+
+theorem C01_translated_BinaryValidator_from_python_eq_model (v : PyVal) :
+    runV Cfg.base binFromPython v = some (Codec.binFromPython v) :=
+  binFromPython_eq v
+
+/-- the chain `createValidators()` builds (extracted lists), joined as `compound.All` does: `col.from_python` and
+    `col.to_python` of every column kind whose validators are all translated are the hand model's `toDb` / `toPy` -/
+theorem C01_translated_createValidators_chain_eq_model (T : ColT) (hT : translatedKind T = true) (v : PyVal) :
+    chainToDb T v = some (Codec.toDb T v) ∧ chainToPy T v = some (Codec.toPy T v) :=
+  ⟨chainToDb_eq T hT v, chainToPy_eq T hT v⟩
+
+example : chainOf .blob = ["BinaryValidator", "StringValidator"] := rfl
+example : translatedKind (.enum []) = true ∧ translatedKind .float = false := ⟨rfl, rfl⟩
+
+/-! ## the round-trip theorems, about the translated source -/
+
+theorem C01_translated_readBack_eq_model (T : ColT) (hT : translatedKind T = true) (x : PyVal) :
+    readBackT T x = some (Codec.readBack T x) :=
+  readBackT_eq T hT x
+
+theorem C01_translated_roundtrip_IntFamily (T : ColT) (hT : Codec.intFamily T) (i : Int) (h : Codec.int64 i = true) :
+    readBackT T (.int i) = some (.ok (.int i)) := by
+  rw [readBackT_eq T (by rcases hT with rfl | rfl | rfl | rfl | rfl <;> rfl), Codec.C01_roundtrip_IntFamily T hT i h]
+
+theorem C01_translated_roundtrip_Bool (b : Bool) : readBackT .bool (.bool b) = some (.ok (.bool b)) := by
+  rw [readBackT_eq _ rfl, Codec.C01_roundtrip_Bool]
+
+theorem C01_translated_roundtrip_String (s : Str) (h0 : 0 ∉ s) : readBackT .string (.str s) = some (.ok (.str s)) := by
+  rw [readBackT_eq _ rfl, Codec.C01_roundtrip_String s h0]
+
+theorem C01_translated_roundtrip_DateTime (T : ColT) (hT : T = .dateTime ∨ T = .timestamp) (y mo d h mi s us : Nat)
+    (hv : (⟨y, mo, d, h, mi, s, us⟩ : DT).valid = true) :
+    readBackT T (.datetime y mo d h mi s us) = some (.ok (.datetime y mo d h mi s us)) := by
+  rw [readBackT_eq T (by rcases hT with rfl | rfl <;> rfl), Codec.C01_roundtrip_DateTime T hT y mo d h mi s us hv]
+
+theorem C01_translated_roundtrip_Date (y mo d : Nat) (hv : (⟨y, mo, d, 0, 0, 0, 0⟩ : DT).valid = true) :
+    readBackT .date (.date y mo d) = some (.ok (.date y mo d)) := by
+  rw [readBackT_eq _ rfl, Codec.C01_roundtrip_Date y mo d hv]
+
+theorem C01_translated_roundtrip_Time (h mi s us : Nat) (hv : (⟨1900, 1, 1, h, mi, s, us⟩ : DT).valid = true) :
+    readBackT .time (.time h mi s us) = some (.ok (.time h mi s us)) := by
+  rw [readBackT_eq _ rfl, Codec.C01_roundtrip_Time h mi s us hv]
+
+theorem C01_translated_roundtrip_Enum (vals : List Str) (s : Str) (hs : s ∈ vals) (h0 : 0 ∉ s) :
+    readBackT (.enum vals) (.str s) = some (.ok (.str s)) := by
+  rw [readBackT_eq _ rfl, Codec.C01_roundtrip_Enum vals s hs h0]
+
+theorem C01_translated_roundtrip_BLOB (bs : Str) (hb : ∀ x ∈ bs, x < 256) :
+    readBackT .blob (.bytes bs) = some (.ok (.bytes bs)) := by
+  rw [readBackT_eq _ rfl, Codec.C01_roundtrip_BLOB bs hb]
+
+theorem C01_translated_roundtrip_ForeignKey (T : ColT) (hT : Codec.fkToInt T) (i : Int) (h : Codec.int64 i = true) :
+    readBackT T (.int i) = some (.ok (.int i)) := by
+  rw [readBackT_eq T (by rcases hT with rfl | rfl <;> rfl), Codec.C01_roundtrip_ForeignKey T hT i h]
+
+theorem C01_translated_roundtrip_ForeignKey_strId (s : Str) (h0 : 0 ∉ s) :
+    readBackT .fkStr (.str s) = some (.ok (.str s)) := by
+  rw [readBackT_eq _ rfl, Codec.C01_roundtrip_ForeignKey_strId s h0]
+
+/-- the (7e1c6b2) rejection of a fractional float, on the translated `IntValidator.to_python` -/
+theorem C01_translated_IntFamily_fractional_float_rejected (t : Str)
+    (h : Codec.floatClass t = .fractional ∨ Codec.floatClass t = .nonfinite) :
+    runV cfgInt intToPython (.float (.lit t)) = some .invalid := by
+  rw [intToPython_eq, ← Codec.C01_IntFamily_fractional_float_rejected .int (Or.inl rfl) t h]; rfl
+
+/-- PARTIAL (same excluded classes as `C01_accepted_readable_partial`), stated about the translated write chain: every
+    value the SOURCE's `from_python` chain accepts is rejected by the statement or read back as a value that equals it
+    or is its documented coercion -/
+theorem C01_translated_accepted_readable_partial (T : ColT) (hT : translatedKind T = true) (x y : PyVal)
+    (hw : Codec.wf x) (hf : Codec.outsideFragment T x = false) (hk : Codec.knownBad T x = false)
+    (h : chainToDb T x = some (.ok y)) : Codec.Readable T x y := by
+  rw [chainToDb_eq T hT] at h
+  exact Codec.C01_accepted_readable_partial T x y hw hf hk (Option.some.inj h)
+
+example : readBackT .timestamp (.datetime 1 1 1 0 0 0 1) = some (.ok (.datetime 1 1 1 0 0 0 1)) :=
+  C01_translated_roundtrip_DateTime _ (Or.inr rfl) _ _ _ _ _ _ _ (by decide)
+example : runV (cfgDt fmtDateTimeStr) dtToPython (.str [50, 48, 50, 48, 45, 48, 49, 45, 48, 50, 32, 48, 51, 58, 48, 52, 58, 48, 53, 46, 53])
+    = some (.ok (.datetime 2020 1 2 3 4 5 500000)) := by decide   -- '2020-01-02 03:04:05.5'
+example : runV cfgInt intToPython (.float (.lit [50, 46, 53])) = some .invalid := by decide
+
+end SqlObjVerif.PyCodec
